@@ -5,10 +5,11 @@ CONSTANTS
   MaxBatch = 4
   MaxKills = 3
   MaxCycles = 3
-  DedupModes = {FALSE, TRUE}
+  DedupModes = {"none", "tags", "shrink"}
+  TagUnion = TRUE
   RecoverOnCrash = TRUE
   ListAllEntries = FALSE
   Emit = FALSE
-INVARIANTS TypeOK DeleteSafe
+INVARIANTS TypeOK DeleteSafeExceptOpen
 VIEW view
 CHECK_DEADLOCK FALSE
